@@ -600,6 +600,14 @@ def cases(tier, seed):
                             base = dict(n=n, d=d, field=field, form=form, solver=solver, prior=pick(priors, i), kind="mixed", rank=rank, seed=sd + i)
                             for cl in (clauses if thorough or not slow else clauses[:1] + clauses[2:5]):
                                 add(cl, base, icl("min_error", form, field, "dm", solver))
+            # ---- (1, d) row vectors (accepted by to_density_matrix like columns)
+            if sd == seeds[0]:
+                for field in fields:
+                    for n, d in ((2, 2), (3, 2), (3, 3)):
+                        i += 1
+                        base = dict(n=n, d=d, field=field, form="dual", solver=solver, rep="row", prior=pick(["uniform", "random"], i), kind="pure", seed=sd + i, phases=True)
+                        for cl in ME_GENERIC:
+                            add(cl, base, icl("min_error", "dual", field, "row-vectors", solver))
             # ---- one list, three numpy dtypes (an integer basis ket first, then a real, then complex states), as a user would type it in
             for form in forms:
                 for n, d in ((2, 2), (3, 2), (3, 3), (4, 3)):
